@@ -138,6 +138,7 @@ func cmdCheck(args []string) (exit int) {
 }
 
 func cmdExplain(args []string) int {
+	// usage: explain <replay.json> [-repo DIR]
 	if len(args) < 1 {
 		usage()
 	}
@@ -146,8 +147,62 @@ func cmdExplain(args []string) int {
 		fmt.Fprintln(os.Stderr, err)
 		return 2
 	}
-	os.Stdout.Write(b)
-	fmt.Println()
+	var rp struct {
+		Property, Kind, Rule, Statement, Site, Pos, Detail, Repo string
+	}
+	if err := json.Unmarshal(b, &rp); err != nil {
+		fmt.Fprintln(os.Stderr, err)
+		return 2
+	}
+	repo := rp.Repo
+	for i := 1; i+1 < len(args); i++ {
+		if args[i] == "-repo" {
+			repo = args[i+1]
+		}
+	}
+	if repo == "" {
+		repo = "/repo"
+	}
+	fmt.Printf("recorded: property=%s kind=%s rule=%s\n  site: %s\n  at:   %s\n  rule: %s\n  what: %s\n", rp.Property, rp.Kind, rp.Rule, rp.Site, rp.Pos, rp.Statement, rp.Detail)
+	d := props[rp.Property]
+	if d == nil {
+		return 2
+	}
+	p, err := Load(repo, false, "")
+	if err != nil {
+		fmt.Println("re-run: cannot load", repo, ":", err)
+		return 1
+	}
+	c := NewCheck(p, rp.Property, "quick")
+	d.Run(c, &Analysis{P: p})
+	fmt.Printf("re-run on %s:\n", repo)
+	still := false
+	n := 0
+	for _, o := range c.Obs {
+		if o.Rule == rp.Rule && o.Site == rp.Site {
+			n++
+			st := "holds"
+			if !o.OK {
+				st, still = "VIOLATED", true
+			}
+			fmt.Printf("  %s %s at %s: %s %s\n", o.Rule, o.Site, o.Pos, st, o.Detail)
+		}
+	}
+	if n == 0 {
+		fmt.Println("  the rule instance no longer exists in this tree (construct removed or renamed); all instances of the rule:")
+		for _, o := range c.Obs {
+			if o.Rule == rp.Rule {
+				fmt.Printf("  %s %s at %s ok=%v\n", o.Rule, o.Site, o.Pos, o.OK)
+			}
+		}
+	}
+	for _, u := range c.undec {
+		fmt.Println("  undecided:", u)
+		still = true
+	}
+	if still {
+		return 1
+	}
 	return 0
 }
 
